@@ -27,6 +27,10 @@ pub struct Limits {
 pub enum Step {
     /// feed `src` (index into Job.srcs) to the compilation scope
     Compile { src: usize },
+    /// feed `src` to a brand-new EMPTY compilation scope (no library); the scope is dropped
+    CompileBare { src: usize },
+    /// feed `src` to a brand-new standard-library scope; the scope is dropped
+    CompileFresh { src: usize },
     /// create the runtime and evaluate all top-level bindings
     Instantiate,
     /// dump a top-level binding
